@@ -19,6 +19,16 @@ class Struct:
         return 'S%r' % (self.f,)
 
 
+class Rec(Struct):
+    """an opaque multi-word record (the 56-byte ClockErrorBound seen as 8-byte words carrying publication
+    tags): may be copied, merged and stored; projecting a field out of it is an EngineError, which is how the
+    data-independence assumption of the seqlock checks is enforced."""
+    __slots__ = ()
+
+    def __repr__(self):
+        return 'Rec%r' % (self.f,)
+
+
 UNIT = Struct([])
 
 
@@ -171,7 +181,9 @@ def ite(c, a, b):
             n = max(len(a.f), len(b.f))
             af = a.f + [None] * (n - len(a.f)); bf = b.f + [None] * (n - len(b.f))
             return Struct([ite(c, x, y) for x, y in zip(af, bf)])
-        return Struct([ite(c, x, y) for x, y in zip(a.f, b.f)])
+        if a.__class__ is not b.__class__:
+            raise EngineError('cannot merge an opaque record with a structured value')
+        return a.__class__([ite(c, x, y) for x, y in zip(a.f, b.f)])
     if isinstance(a, Enum) and isinstance(b, Enum):
         pl = {}
         for k in set(a.p) | set(b.p):
@@ -230,3 +242,24 @@ def ite(c, a, b):
     if isinstance(a, Opaque) or isinstance(b, Opaque):
         return Opaque('ite(%s|%s)' % (getattr(a, 'tag', a), getattr(b, 'tag', b)))
     raise EngineError('cannot merge values %r / %r' % (a, b))
+
+
+def subst(v, pairs):
+    """substitute z3 constants inside a symbolic value (pairs: list of (old, new) z3 terms)"""
+    if not pairs:
+        return v
+    if isinstance(v, z3.ExprRef):
+        return z3.substitute(v, *pairs)
+    if isinstance(v, Struct):
+        return v.__class__([subst(x, pairs) for x in v.f])
+    if isinstance(v, Enum):
+        return Enum(v.d if isinstance(v.d, int) else z3.substitute(v.d, *pairs), {k: subst(x, pairs) for k, x in v.p.items()})
+    if isinstance(v, IteRef):
+        return IteRef(z3.substitute(v.c, *pairs), subst(v.a, pairs), subst(v.b, pairs))
+    if isinstance(v, Dyn):
+        return Dyn(v.ty, subst(v.val, pairs))
+    if isinstance(v, IteDyn):
+        return IteDyn([(z3.substitute(c, *pairs), subst(d, pairs)) for c, d in v.alts])
+    if isinstance(v, FLin):
+        return FLin(z3.substitute(v.x, *pairs))
+    return v
